@@ -30,6 +30,7 @@ pub enum T {
     SetBig,
     AppendBig,
     DelOther,
+    DelStale,
     /// unconditional set writing the very bytes the item already holds (different flags)
     SetSame,
     /// CAS set (current token) writing the very bytes the item already holds (different flags)
@@ -59,6 +60,7 @@ pub fn instantiate(t: T, client: usize, key: &[u8], other: &[u8]) -> Cmd {
         T::GetOther => Cmd::Get { key: other.to_vec(), with_key: false, quiet: false },
         T::SetBig => Cmd::Store { kind: StoreKind::Set, key: k, value: vec![b'B'; 40], flags: 70, ttl: 0, cas: CasArg::Zero, quiet: false },
         T::AppendBig => Cmd::Concat { append: true, key: k, value: vec![b'b'; 30], cas: CasArg::Zero, quiet: false },
+        T::DelStale => Cmd::Delete { key: k, cas: CasArg::Stale1, quiet: false },
         T::SetSame => Cmd::Store { kind: StoreKind::Set, key: k, value: b"10".to_vec(), flags: 90 + client as u32, ttl: 0, cas: CasArg::Zero, quiet: false },
         T::SetCurSame => Cmd::Store { kind: StoreKind::Set, key: k, value: b"10".to_vec(), flags: 95 + client as u32, ttl: 0, cas: CasArg::Current, quiet: false },
         T::DelOther => Cmd::Delete { key: other.to_vec(), cas: CasArg::Zero, quiet: false },
@@ -205,7 +207,37 @@ pub fn c04_families(tier: Tier) -> Vec<Family> {
         }
     }
     fams.push(Family { name: "3x1".into(), programs: progs, opts: opts(if tier == Tier::Quick { 2 } else { 3 }, tier) });
+    // the same pairs with the random policy (unreachable limit) in front of the store
+    let mut progs = vec![];
+    for init in INITS {
+        for ms in multisets(&alpha, 2) {
+            if !ms.iter().any(|t| C04_RMW.contains(t)) {
+                continue;
+            }
+            progs.push(mk(init, ms.iter().map(|t| vec![*t]).collect(), K, K, keys.clone(), Policy::Random(1 << 40)));
+        }
+    }
+    fams.push(Family { name: "2x1/random-policy".into(), programs: progs, opts: opts(if tier == Tier::Quick { 3 } else { 64 }, tier) });
     fams
+}
+
+/// C08, concurrent part: delete (cas 0 / matching / stale) against concurrent stores and reads of
+/// the same and of another key: it removes exactly what it addresses, a CAS mismatch has no effect.
+pub fn c08_families(tier: Tier) -> Vec<Family> {
+    let (same, _diff) = sibling_keys(K);
+    let keys = vec![K.to_vec(), same.clone()];
+    let dels = [T::Del, T::DelCur, T::DelStale];
+    let others = [T::Set, T::SetCur, T::Get, T::SetOther, T::DelOther, T::Del, T::Flush];
+    let mut progs = vec![];
+    for init in INITS {
+        for d in dels {
+            for o in others {
+                progs.push(mk(init, vec![vec![d], vec![o]], K, &same, keys.clone(), Policy::None));
+                progs.push(mk(init, vec![vec![d, T::Get], vec![o]], K, &same, keys.clone(), Policy::None));
+            }
+        }
+    }
+    vec![Family { name: "delete-vs-other".into(), programs: progs, opts: opts(if tier == Tier::Quick { 3 } else { 64 }, tier) }]
 }
 
 /// shard index of a key under the vendored dashmap's fixed hasher
